@@ -6,9 +6,10 @@
        full agreement when the edge has its own scope, agreement under an excluding
        hypothesis when it has not, and a refutation without that hypothesis;
    (b) refutations by concrete manifests (vm_compute): file-level binding shadows the rule's,
-       phony self-reference filter corrupts input kinds, late re-binding, phantom rspfile
-       bindings, pool evaluated before $out is known, version fields of the sub-parser;
-   (c) C13: the self-including manifest exhausts every include fuel;
+       late re-binding, phantom rspfile bindings, pool evaluated before $out is known, version
+       fields of the sub-parser; and the POSITIVE theorem for the (fixed) phony self-reference
+       filter, with the old filter's defect kept as documentation;
+   (c) C13: the self-including manifest is rejected by the code's depth limit (200);
    (d) rejection theorems for every documented constraint. *)
 From Coq Require Import String Ascii.
 From NinjaV Require Import Base.Bytes Canon.CanonDefs Manifest.LexDefs Manifest.ParseDefs
@@ -282,26 +283,63 @@ Theorem C12_eval_refuted_file_shadows_rule :
 Proof. exists (single root m_file_shadows_rule). vm_compute. repeat split. Qed.
 
 (* (b2) phony self-reference filter: "build p: phony c || p" -- c was written as an EXPLICIT
-   input; after the filter the code holds inputs [c] with order_only_deps_ = 1, i.e. c has
-   become order-only (and for "build s: phony || s" the explicit-input count
-   inputs.size() - implicit - order_only is -1). *)
+   input and stays one; "build s: phony || s" ends with no input and no order-only count.
+   (Before the fix of the filter the counter was left alone: see
+   [phony_filter_legacy_corrupts_kinds] below.) *)
 Definition m_phony_selfref : bytes := bs
 "build p: phony c || p
 build s: phony || s
+build t: phony t a || b t c ./t
 ".
 
-Theorem C12_phony_selfref_refuted :
-  exists fm,
-    (* the code: one input, counted as order-only *)
-    dump_edge_field (fun d => (d_ins d, d_implicit_deps d, d_order_only_deps d)) 0
-                    (eval_manifest fm 4 root) = Some ([bs "c"], O, 1%nat) /\
-    (* the reference: one input, explicit *)
-    dump_edge_field (fun d => (d_ins d, d_implicit_deps d, d_order_only_deps d)) 0
-                    (spec_manifest fm 4 root) = Some ([bs "c"], O, O) /\
-    (* second statement: more order-only inputs than inputs *)
-    dump_edge_field (fun d => (d_ins d, d_implicit_deps d, d_order_only_deps d)) 1
-                    (eval_manifest fm 4 root) = Some ([], O, 1%nat).
-Proof. exists (single root m_phony_selfref). vm_compute. repeat split. Qed.
+Theorem C12_phony_selfref_kinds :
+  eval_manifest (single root m_phony_selfref) 4 root = spec_manifest (single root m_phony_selfref) 4 root /\
+  dump_edge_field (fun d => (d_ins d, d_implicit_deps d, d_order_only_deps d)) 0
+                  (eval_manifest (single root m_phony_selfref) 4 root) = Some ([bs "c"], O, O) /\
+  dump_edge_field (fun d => (d_ins d, d_implicit_deps d, d_order_only_deps d)) 1
+                  (eval_manifest (single root m_phony_selfref) 4 root) = Some ([], O, O) /\
+  dump_edge_field (fun d => (d_ins d, d_implicit_deps d, d_order_only_deps d)) 2
+                  (eval_manifest (single root m_phony_selfref) 4 root)
+    = Some ([bs "a"; bs "b"; bs "c"], O, 2%nat).
+Proof. vm_compute. repeat split. Qed.
+
+(* In general: the filter erases the output from the explicit part and from the order-only
+   part separately, and the new counter is the length of what is left of the order-only part:
+   no input changes its kind. *)
+Lemma remove_bytes_app x l1 l2 : remove_bytes x (l1 ++ l2) = remove_bytes x l1 ++ remove_bytes x l2.
+Proof.
+  induction l1 as [|y l1 IH]; [reflexivity|]. cbn [app remove_bytes].
+  destruct (bytes_eqb y x); [exact IH|]. cbn [app]. rewrite IH. reflexivity.
+Qed.
+
+Lemma length_remove_bytes x l : (length (remove_bytes x l) + count_bytes x l = length l)%nat.
+Proof.
+  induction l as [|y l IH]; [reflexivity|]. cbn [remove_bytes count_bytes].
+  destruct (bytes_eqb y x); cbn [length]; lia.
+Qed.
+
+Theorem C12_phony_filter_keeps_kinds out ins oo :
+  (oo <= length ins)%nat ->
+  let k := (length ins - oo)%nat in
+  phony_filter out ins oo =
+  (remove_bytes out (firstn k ins) ++ remove_bytes out (skipn k ins),
+   length (remove_bytes out (skipn k ins))).
+Proof.
+  intros Hle k. unfold phony_filter. fold k. f_equal.
+  - rewrite <- remove_bytes_app, firstn_skipn. reflexivity.
+  - pose proof (length_remove_bytes out (skipn k ins)) as H.
+    rewrite skipn_length in H. unfold k in *. lia.
+Qed.
+
+(* the filter before the fix: "build p: phony c || p" left inputs [c] with order_only_deps_ = 1
+   (c became order-only) and "build s: phony || s" left no input with order_only_deps_ = 1
+   (explicit count -1) *)
+Theorem phony_filter_legacy_corrupts_kinds :
+  phony_filter_legacy (bs "p") [bs "c"; bs "p"] 1 = ([bs "c"], 1%nat) /\
+  phony_filter (bs "p") [bs "c"; bs "p"] 1 = ([bs "c"], O) /\
+  phony_filter_legacy (bs "s") [bs "s"] 1 = ([], 1%nat) /\
+  phony_filter (bs "s") [bs "s"] 1 = ([], O).
+Proof. vm_compute. repeat split. Qed.
 
 (* The filter itself (dropping the self-reference) agrees with the reference when no kind
    information is at stake. *)
@@ -454,30 +492,30 @@ Definition m_selfinc : bytes := bs "include build.ninja
 ".
 Definition fm_selfinc := single root m_selfinc.
 
-Lemma parse_loop_S f total incl e lx ps :
-  parse_loop (S f) total incl e lx ps =
+Lemma parse_loop_S f total incl depth e lx ps :
+  parse_loop (S f) total incl depth e lx ps =
   do (tok, lx1) <- p_read_token lx;
   match tok with
-  | T_POOL => do (lx2, ps2) <- parse_pool total e lx1 ps; parse_loop f total incl e lx2 ps2
-  | T_BUILD => do (lx2, ps2) <- parse_edge total e lx1 ps; parse_loop f total incl e lx2 ps2
-  | T_RULE => do (lx2, ps2) <- parse_rule total e lx1 ps; parse_loop f total incl e lx2 ps2
-  | T_DEFAULT => do (lx2, ps2) <- parse_default total e lx1 ps; parse_loop f total incl e lx2 ps2
+  | T_POOL => do (lx2, ps2) <- parse_pool total e lx1 ps; parse_loop f total incl depth e lx2 ps2
+  | T_BUILD => do (lx2, ps2) <- parse_edge total e lx1 ps; parse_loop f total incl depth e lx2 ps2
+  | T_RULE => do (lx2, ps2) <- parse_rule total e lx1 ps; parse_loop f total incl depth e lx2 ps2
+  | T_DEFAULT => do (lx2, ps2) <- parse_default total e lx1 ps; parse_loop f total incl depth e lx2 ps2
   | T_IDENT =>
     do (name, val, lx2) <- parse_let (lex_unread lx1);
     let value := eval_in (ps_store ps) e val in
     if bytes_eqb name s_ninja_required_version then
       let (major, minor) := parse_version value in
       if version_fatal major minor then P_err [] O E_fatal_version
-      else parse_loop f total incl e (lx_set_version lx2 major minor)
+      else parse_loop f total incl depth e (lx_set_version lx2 major minor)
                       (ps_with_store ps (add_binding (ps_store ps) e name value))
-    else parse_loop f total incl e lx2 (ps_with_store ps (add_binding (ps_store ps) e name value))
+    else parse_loop f total incl depth e lx2 (ps_with_store ps (add_binding (ps_store ps) e name value))
   | T_INCLUDE =>
-    do (lx2, ps2) <- parse_include incl false e lx1 ps; parse_loop f total incl e lx2 ps2
+    do (lx2, ps2) <- parse_include incl depth false e lx1 ps; parse_loop f total incl depth e lx2 ps2
   | T_SUBNINJA =>
-    do (lx2, ps2) <- parse_include incl true e lx1 ps; parse_loop f total incl e lx2 ps2
+    do (lx2, ps2) <- parse_include incl depth true e lx1 ps; parse_loop f total incl depth e lx2 ps2
   | T_ERROR => lex_error lx1 (if lx_last_is_tab lx1 then E_tabs else E_lexing)
   | T_TEOF => P_ok (lx1, ps)
-  | T_NEWLINE => parse_loop f total incl e lx1 ps
+  | T_NEWLINE => parse_loop f total incl depth e lx1 ps
   | T_COLON | T_EQUALS | T_INDENT | T_PIPE | T_PIPE2 | T_PIPEAT => lex_error lx1 (E_unexpected tok)
   end.
 Proof. reflexivity. Qed.
@@ -489,56 +527,66 @@ Lemma selfinc_first_token major minor checked :
   P_ok (T_INCLUDE, mkLexer root selfinc_input 8 0 major minor checked).
 Proof. vm_compute. reflexivity. Qed.
 
-Lemma selfinc_include (incl : loader) e ps major minor checked :
-  parse_include incl false e (mkLexer root selfinc_input 8 0 major minor checked) ps =
-  do ps2 <- incl (mkLexer root selfinc_input 19 19 major minor checked) root e ps;
-  P_ok (mkLexer root selfinc_input 20 19 major minor checked, ps2).
-Proof. vm_compute. destruct (incl _ _ _ _); reflexivity. Qed.
+Lemma selfinc_read_path major minor checked :
+  p_read_eval true (mkLexer root selfinc_input 8 0 major minor checked) =
+  P_ok ([ET_raw root], mkLexer root selfinc_input 19 19 major minor checked).
+Proof. vm_compute. reflexivity. Qed.
 
-(* the first statement of the self-including file hands the same file to the loader again *)
-Lemma selfinc_step (incl : loader) n total e ps major minor checked :
-  (forall plx e' ps', lx_file plx = root -> lx_line plx = 1%nat ->
-                      incl plx root e' ps' = P_err root 1 E_include_fuel) ->
-  parse_loop (S n) total incl e (lex_start root m_selfinc major minor checked) ps =
-  P_err root 1 E_include_fuel.
+(* the include statement of the self-including file, in the parser at depth [depth] *)
+Lemma selfinc_include (incl : loader) depth e ps major minor checked :
+  parse_include incl depth false e (mkLexer root selfinc_input 8 0 major minor checked) ps =
+  if Nat.leb max_include_depth depth then P_err root 1 E_include_depth
+  else do ps2 <- incl (mkLexer root selfinc_input 19 19 major minor checked) root e ps;
+       P_ok (mkLexer root selfinc_input 20 19 major minor checked, ps2).
+Proof.
+  unfold parse_include. rewrite selfinc_read_path. cbv beta iota zeta.
+  destruct (Nat.leb max_include_depth depth); [vm_compute; reflexivity|].
+  vm_compute. destruct (incl _ _ _ _); reflexivity.
+Qed.
+
+Lemma selfinc_step (incl : loader) n total depth e ps major minor checked :
+  (Nat.leb max_include_depth depth = false ->
+   forall plx e' ps', incl plx root e' ps' = P_err root 1 E_include_depth) ->
+  parse_loop (S n) total incl depth e (lex_start root m_selfinc major minor checked) ps =
+  P_err root 1 E_include_depth.
 Proof.
   intros Hincl. rewrite parse_loop_S, selfinc_first_token. cbv iota beta.
-  rewrite selfinc_include. rewrite Hincl; [reflexivity|reflexivity|vm_compute; reflexivity].
+  rewrite selfinc_include.
+  destruct (Nat.leb max_include_depth depth); [reflexivity|].
+  rewrite (Hincl eq_refl). reflexivity.
 Qed.
 
-Lemma load_selfinc : forall f depth plx e ps,
-  lx_file plx = root -> lx_line plx = 1%nat ->
-  load f fm_selfinc depth (Some plx) root e ps = P_err root 1 E_include_fuel.
+(* [k] = number of levels left before the limit *)
+Lemma load_selfinc : forall k f depth parent e ps,
+  (depth + k = max_include_depth)%nat -> (k < f)%nat ->
+  load f fm_selfinc depth parent root e ps = P_err root 1 E_include_depth.
 Proof.
-  induction f as [|f IH]; intros depth plx e ps Hf Hl.
-  - cbn [load]. unfold lex_error. rewrite Hf, Hl. reflexivity.
-  - cbn [load].
-    change (fm_selfinc root) with (Some m_selfinc).
-    destruct (nth depth (ps_subflags ps) default_flags) as [[major minor] checked].
-    rewrite selfinc_step; [reflexivity|].
-    intros plx' e' ps' Hf' Hl'. apply IH; assumption.
+  induction k as [|k IH]; intros f depth parent e ps Hd Hf;
+    (destruct f as [|f]; [lia|]); cbn [load];
+    change (fm_selfinc root) with (Some m_selfinc);
+    destruct (nth depth (ps_subflags ps) default_flags) as [[major minor] checked];
+    (rewrite selfinc_step; [reflexivity|]); intros Hleb.
+  - apply Nat.leb_gt in Hleb. lia.
+  - intros plx e' ps'. apply IH; lia.
 Qed.
 
-Lemma load_selfinc_S : forall f depth parent e ps,
-  load (S f) fm_selfinc depth parent root e ps = P_err root 1 E_include_fuel.
+(* The self-including manifest is now a parse error of the file at nesting depth 200, reported
+   at its include statement; the recursion fuel of the model plays no part as soon as it is
+   at least 201. *)
+Theorem C13_include_self_rejected :
+  forall fuel, eval_manifest fm_selfinc (201 + fuel) root = Err root 1 E_include_depth.
 Proof.
-  intros f depth parent e ps. cbn [load].
-  change (fm_selfinc root) with (Some m_selfinc).
-  destruct (nth depth (ps_subflags ps) default_flags) as [[major minor] checked].
-  rewrite selfinc_step; [reflexivity|].
-  intros plx' e' ps' Hf' Hl'. apply load_selfinc; assumption.
+  intros fuel. unfold eval_manifest.
+  rewrite (load_selfinc 200); [reflexivity|reflexivity|lia].
 Qed.
 
-(* Whatever depth budget is granted, the self-including manifest uses it up: the recursion
-   of the real Parser::Load / ManifestParser::ParseFileInclude has no bound of its own
-   (observed: SIGSEGV by stack exhaustion). *)
-Theorem C13_include_self_refuted :
-  forall fuel, eval_manifest fm_selfinc (S fuel) root = Err root 1 E_include_fuel.
-Proof.
-  intros fuel. unfold eval_manifest. rewrite load_selfinc_S. reflexivity.
-Qed.
+(* ... and the reference rejects it as well, for every fuel (choice C8) *)
+Theorem C13_include_self_rejected_spec_example :
+  spec_manifest fm_selfinc 8 root = Err root 1 E_include_depth.
+Proof. vm_compute. reflexivity. Qed.
 
-(* a non-recursive include needs fuel = nesting depth + 1 and no more *)
+(* with less fuel than the code's own limit the fuel can be what stops the model (artefact;
+   the driver uses 202): a non-recursive include needs fuel = nesting depth + 1 and no more *)
 Example include_fuel_sufficient_example :
   (exists g, eval_manifest fm_agree 2 root = Ok g) /\
   eval_manifest fm_agree 1 root = Err root 15 E_include_fuel.
